@@ -1,5 +1,6 @@
 """C06 Pre-release gating and filter() follow the PEP 440 policy."""
 import os, json
+from dataclasses import replace
 from core import Case
 import gen, gen_sets as G
 
@@ -12,7 +13,7 @@ RULE = ("operation histories on one Specifier / SpecifierSet / empty SpecifierSe
         "releases, shuffled, occasional invalid strings); filter results observed as positions (identity by `is`) and kinds of the returned "
         "objects; non-trivial = the object was constructed; distinct by program text")
 ASSUMPTIONS = ["filter() is observed through list(...): the laziness of the generator (when an InvalidVersion surfaces relative to items already "
-               "yielded) is not observed", "member Specifier objects are not mutated after they are placed in a set"]
+               "yielded) is not observed"]
 
 
 OPTOK = {"S", "X", "L", "&", "&s", "P", "c", "in", "f", "str", "len", "pre", "eq", "eqs", "T", "F", "N", "s", "v", "1", "0", "E"}
@@ -88,6 +89,52 @@ def streams(rng, tier):
         prog += ["c", rng.choice(G.TRI_ARG), rng.choice(["N", "T", "F", "1", "E"]), rng.choice("sv"), G.candidate(rng, pool, 0.97)]
         prog += ["P", rng.choice("TFN10"), "pre", "f", "N", str(len(its) // 2)] + its
         out.append(Case("history:and", "s.run", prog))
+    # objects with identity: Specifier objects shared between a set, a second set and their intersection; assignments to a member's
+    # .prereleases through the harness's own reference, interleaved with assignments to the sets and reads of every set and object
+    for _ in range(1200 if q else 30000):
+        pool = G.pool_of(rng)
+        ncell = rng.choice([1, 2, 2, 3, 4])
+        cl = [G.clause(rng, pool) for _ in range(ncell)]
+        if rng.random() < 0.4: cl.append(G.respell(rng, rng.choice(cl)))
+        prog = []
+        for x in cl: prog += ["X", rng.choice(G.TRI_OV), x]
+        n = len(cl)
+        def subset():
+            k = rng.choice([0, 1, 1, 2, 2, 3])
+            return [str(rng.randrange(n)) for _ in range(k)]
+        members = []
+        for _ in range(2):
+            a = subset(); prog += ["L", rng.choice(["N", "N", "N", "N", "N", "N", "T", "F", "1", "0"]), str(len(a))] + a; members.append(set(a))
+        if rng.random() < 0.85: prog += ["&", "0", "1"]; members.append(members[0] | members[1])
+        def pre_cand():
+            c = G.candidate(rng, pool, 1.0)
+            return c if rng.random() < 0.3 else gen.vstr(replace(rng.choice(pool), pre=rng.choice([("a", 1), ("rc", 0)]), dev=None, local=None))
+        for _ in range(rng.choice([2, 4, 6, 9])):
+            k = rng.random(); nsets = len(members); si = str(rng.randrange(nsets)); ci = str(rng.randrange(n))
+            if k < 0.25:
+                held = sorted(set().union(*members))
+                if held and rng.random() < 0.8: ci = rng.choice(held)
+                prog += ["M", ci, rng.choice(["T", "F", "N", "T", "F", "N", "1", "0"])]
+                # look at the assignment through a set that holds this object (the intersection by preference)
+                holders = [j for j in range(nsets) if ci in members[j]]
+                if holders and rng.random() < 0.8:
+                    h = str(max(holders) if rng.random() < 0.6 else rng.choice(holders))
+                    prog += ["pre", h, "c", h, "N", rng.choice(["N", "N", "T"]), rng.choice("sv"), pre_cand()]
+                    if rng.random() < 0.3:
+                        its = item_list(rng, pool); prog += ["f", h, "N", str(len(its) // 2)] + its
+            elif k < 0.35: prog += ["P", si, rng.choice(["T", "F", "N", "N", "1", "0"])]
+            elif k < 0.55: prog += ["c", si, rng.choice(G.TRI_ARG), rng.choice(["N", "N", "T", "F"]), rng.choice("sv"), G.candidate(rng, pool, 0.97)]
+            elif k < 0.6: prog += ["in", si, rng.choice("sv"), G.candidate(rng, pool, 0.97)]
+            elif k < 0.75: prog += ["pre", si]
+            elif k < 0.8: prog += ["str", si]
+            elif k < 0.85: prog += ["xpre", ci]
+            elif k < 0.9: prog += ["xc", ci, rng.choice(G.TRI_ARG), rng.choice("sv"), G.candidate(rng, pool, 0.97)]
+            elif k < 0.93 and nsets < 5:
+                sj = rng.randrange(nsets); prog += ["&", si, str(sj)]; members.append(members[int(si)] | members[sj])
+            else:
+                its = item_list(rng, pool)
+                prog += (["f", si] if rng.random() < 0.8 else ["xf", ci]) + [rng.choice(G.TRI_ARG), str(len(its) // 2)] + its
+        out.append(Case("history:world", "s.world", prog))
     for text, its in [(">=1.0", ["1.5a1"]), (">=1.0", ["1.0", "1.5a1"]), (">=1.0a1", ["1.5a1", "2.0"]), ("", ["1.0a1"]), ("", ["1.0a1", "1.0"]),
                       ("!=1.0a1", ["1.0a1", "2.0a1"]), ("===foo", ["1.0", "foo"]), ("==1.0.*", ["1.0.dev1", "1.0.1"]), ("<2", ["2.0.dev1", "1.0"])]:
         for o in "NTF":
